@@ -419,6 +419,20 @@ def handle (line0 : String) : String :=
       let r := t.findSteps (sliceOfHex namehex) (symTable le c (sliceOfHex symhex)) (sliceOfHex strhex)
       showFound r.1
     | r => "new:" ++ showOut (fun _ => "") r
+  | ["sysvm", le, cls, symhex, strhex, nameshex, hashhex] =>
+    let le := le == "1"; let c := parseCls cls
+    match SysVHashTable.new le c (sliceOfHex hashhex) with
+    | .ok t =>
+      " | ".intercalate ((nameshex.splitOn ".").map fun n =>
+        showFound (t.findSteps (sliceOfHex n) (symTable le c (sliceOfHex symhex)) (sliceOfHex strhex)).1)
+    | r => "new:" ++ showOut (fun _ => "") r
+  | ["gnum", le, cls, symhex, strhex, nameshex, hashhex] =>
+    let le := le == "1"; let c := parseCls cls
+    match GnuHashTable.new le c (sliceOfHex hashhex) with
+    | .ok t =>
+      " | ".intercalate ((nameshex.splitOn ".").map fun n =>
+        showFound (t.findSteps (sliceOfHex n) (symTable le c (sliceOfHex symhex)) (sliceOfHex strhex)).1)
+    | r => "new:" ++ showOut (fun _ => "") r
   | ["verit", kind, le, cls, count, off, hex] =>
     let it : VerIter := ⟨le == "1", parseCls cls, nat! count, sliceOfHex hex, nat! off⟩
     match kind with
